@@ -199,6 +199,25 @@ def main():
                                   'replay_cmd': './check C06 --replay <this file>'}, tags={'kind': 'tb-vs-sim'})
             elif len(ck.cov['samples']) < 6 and dist['judged'] % 9 == 1:
                 ck.sample({'program': name, 'input': list(inp), 'steps': mon['steps'], 'exit': sim['rc'], 'stdout': sim['out'].decode('latin1')[:60], 'consumed': sim['consumed']})
+    # ---- the loaders: files at and beyond the capacity of the memory, truncated and missing files.  hextb and hexsim must agree
+    # (reject with exit status 1 and no output, or run the same way); the toolchain can produce the oversize ones
+    loader = []
+    if not ck.replay_arg:
+        for lname, lpath, linp in tbcommon.loader_files(d, hexasm):
+            rs, os_, es = run3([hexsim, lpath, '--max-cycles', '2000'], cwd=d, input=linp, timeout=300)
+            tbs = []
+            for sd_ in seeds[:2]:
+                rt, ot, et = run3([hextb, lpath, '--max-cycles', '2000', '+verilator+seed+%d' % sd_], cwd=d, input=linp, timeout=300)
+                tbs.append((rt & 0xff if rt >= 0 else rt, strip_banner(ot)))
+            ck.cov['evaluations'] += 1
+            differs = any(t != (rs & 0xff if rs >= 0 else rs, os_) for t in tbs)
+            loader.append({'file': lname, 'differs': differs, 'hexsim': [rs, os_.decode('latin1'), es.decode('latin1')[:80]], 'hextb': [[t[0], t[1].decode('latin1')] for t in tbs]})
+            if differs:
+                nbad += 1
+                ck.violation('%s: hexsim exit %d output %r (%s); hextb %s' % (lname, rs, os_, es.decode('latin1').strip()[:80], tbs),
+                             {'program': lname, 'how_to_build': 'tools/tbcommon.py loader_files()', 'hexsim': [rs, list(os_)], 'hextb': [[t[0], list(t[1])] for t in tbs]},
+                             tags={'kind': 'loader'})
+    ck.cov['loader_files'] = loader
     # ---- the known-finding shape inside the literal quantifier (judged; reported through known_findings.json)
     exhibits = []
     if not ck.replay_arg:
